@@ -25,7 +25,7 @@ WORKERS = {"quick": 4, "thorough": 16}
 WATCHDOG = {"quick": 900, "thorough": 3300}
 REQUIRED = {"expansion>=2x2": 10, "nesting-depth-3": 20, "resonance-without-alternatives": 20, "resonance-with>=2-alternatives": 20, "resonance-with-3-alternatives": 5,
             "tag:[S]": 10, "tag:[P]": 10, "tag:[D]": 10, "tag:[ls]": 10, "tag:[spin;ls]": 10, "cartesian:absent": 10, "cartesian:0": 10, "cartesian:1": 10,
-            "parameter-rows": 20, "constant-rows": 20, "crlf": 5, "comments": 20, "eventtype-not-first": 5, "amplitudes>=8": 5, "unmemoised-read": 1, "flag-as-float-or-signed-literal": 10, "ignored-line-kinds": 5,
+            "parameter-rows": 20, "constant-rows": 20, "crlf": 5, "comments": 20, "eventtype-not-first": 5, "amplitudes>=8": 5, "unmemoised-read": 1, "flag-as-float-or-signed-literal": 10, "constant-name-repeated": 5, "ignored-line-kinds": 5,
             "shipped-model-or-test-text": 1}
 ASSUMPTIONS = ["PDG IDs of the 29 AmpGen-style names of the golden pool are fixed in vmon/ampgen.py", "amplitude fixedness (line.fix) is not compared with the input flags (DESIGN 5.8)",
                "the order of amplitudes inside the expansion of one written line is not compared (multiset); groups follow file order",
@@ -68,6 +68,8 @@ def classify(ctx, model, exp):
         ctx.hit("ignored-line-kinds")
     if model["consts"]:
         ctx.hit("constant-rows")
+    if len({c[0] for c in model["consts"]}) < len(model["consts"]):
+        ctx.hit("constant-name-repeated")
     nontrivial = False
     for g in exp["groups"]:
         if len(g["strs"]) >= 4:
